@@ -1095,6 +1095,13 @@ Lemma constants :
   Generated.auth_delimiter = Some [13; 10].
 Proof. repeat split; reflexivity. Qed.
 
+(* the command words the bus has a handler for (open getattr dispatch on '_auth_' + word) are exactly the
+   commands of the server state machine: no other word reaches a handler *)
+Lemma commands_from_source :
+  Generated.bus_auth_commands =
+  Some [w_AUTH; w_BEGIN; w_CANCEL; w_DATA; w_ERROR; w_NEGOTIATE_UNIX_FD].
+Proof. reflexivity. Qed.
+
 (* ----- DBUS_COOKIE_SHA1 with the right cookie, every parameter symbolic ---------- *)
 Definition is_bytes (l : bytes) : Prop := Forall (fun c => c < 256) l.
 Definition no_ws (l : bytes) : Prop := Forall (fun c => is_ws c = false) l.
